@@ -40,6 +40,14 @@ CHECKS['C04'] = dict(
          'table for + - * / ** over operand kinds; 17 kinds of malformed construction requests that must raise.',
     note='The predicate (vlib/wellformed.py) is a transcription of the statement; exceptions of non-arithmetic operations inside histories are counted, not judged.')
 
+CHECKS['C05'] = dict(
+    technique='property-based testing (Hypothesis): reference results built from {configuration: sample} dictionaries of the generated spec; must-raise cases',
+    level='exploration', design='DESIGN.md 4/C05',
+    text='Weights on 1-3 replicas and observables on generated subsets (prefix, window, stride, mask) of their configurations and replicas; reweight (function, '
+         'method, Corr), correlate (function, Corr with Obs / Corr), merge_obs over replica partitions, qtop_projection; expected value, every fluctuation, '
+         'replica means and the reweighted flag are computed by configuration number; 11 kinds of un-alignable requests must raise.',
+    note='Trusts RefObs.combine for the first-order ratio <w o>/<w>.')
+
 PENDING_REASON = 'check under construction in this build phase; not claimed until its quick tier is silent on the unchanged tree'
 
 
